@@ -4,6 +4,7 @@ import (
 	"context"
 	"fmt"
 	"math/big"
+	"strings"
 
 	"verifharness/internal/impl"
 	"verifharness/internal/items"
@@ -163,11 +164,7 @@ func cmdSStoreGas(args []string) error {
 		}
 	}
 	_ = fmt.Sprint
-	out := ""
-	for _, l := range lines {
-		out += l + "\n"
-	}
-	if err := writeFile(c.out, "cases.txt", out); err != nil {
+	if err := writeFile(c.out, "cases.txt", strings.Join(lines, "\n")+"\n"); err != nil {
 		return err
 	}
 	if err := writeJSON(c.out, "cases.json", cases); err != nil {
